@@ -1066,6 +1066,7 @@ where
                 // Close (F)
                 'C' => {
                     let close: Close = (&message).try_into()?;
+                    self.forget_closed_statement(&close);
 
                     self.extended_protocol_data_buffer
                         .push_back(ExtendedProtocolData::create_new_close(message, close));
@@ -1393,6 +1394,7 @@ where
                     // Close the prepared statement.
                     'C' => {
                         let close: Close = (&message).try_into()?;
+                        self.forget_closed_statement(&close);
 
                         self.extended_protocol_data_buffer
                             .push_back(ExtendedProtocolData::create_new_close(message, close));
@@ -1540,8 +1542,7 @@ where
                                         && close.is_prepared_statement()
                                         && !close.anonymous()
                                     {
-                                        self.prepared_statements.remove(&close.name);
-
+                                        // The name was forgotten when the Close arrived.
                                         // Queue up a close complete message to send to the client
                                         self.response_message_queue_buffer.put(close_complete());
                                     } else {
@@ -1936,6 +1937,15 @@ where
             ));
 
         Ok(())
+    }
+
+    /// A Close of a named statement takes the name out of the client's map in message
+    /// order, like the Parse and Bind around it: a Parse of the same name later in the
+    /// same batch must survive it.
+    fn forget_closed_statement(&mut self, close: &Close) {
+        if self.prepared_statements_enabled && close.is_prepared_statement() && !close.anonymous() {
+            self.prepared_statements.remove(&close.name);
+        }
     }
 
     /// Remember the statement name of a Parse that a plugin denied or intercepted.
